@@ -701,6 +701,7 @@ func checkModelKeys(rep *core.Report, rr *core.RuleRun) {
 		return
 	}
 	info := pk.TypesInfo
+	ftTbl, _, _ := fieldTypesTable(rep)
 	seen := map[[2]int64]bool{}
 	bad, n := 0, 0
 	for _, el := range lit.Elts {
@@ -731,8 +732,22 @@ func checkModelKeys(rep *core.Report, rr *core.RuleRun) {
 			bad++
 			rr.Fail(key+":FieldID", el.Pos(), fmt.Sprintf("entry keyed by element id %d carries FieldID %d: records using element %d are reported under id %d", id, fid, id, fid))
 		}
+		// the entry's type is a name the type-name table knows: a misspelt name is a silent lookup miss, the element
+		// becomes Unknown and its values come out as raw octets
+		if len(ftTbl) > 0 {
+			if t, isIdx := vf["Type"].(*ast.IndexExpr); isIdx {
+				if o := objOf(info, t.X); o != nil && o.Name() == "FieldTypes" && o.Pkg() == pk.Types {
+					if nm, ok := constString(info, t.Index); ok {
+						if _, known := ftTbl[nm]; !known {
+							bad++
+							rr.Fail(key+":type", el.Pos(), fmt.Sprintf("type name %q of element %d is not a key of FieldTypes: the lookup silently yields Unknown and the element's values are published as raw octets instead of being interpreted", nm, id))
+						}
+					}
+				}
+			}
+		}
 	}
 	if bad == 0 {
-		rr.Check(n >= 300, "InfoModel:keys", mpos, fmt.Sprintf("%d entries, each keyed once by its own element id", n), fmt.Sprintf("only %d constant entries found in the built-in table", n))
+		rr.Check(n >= 300, "InfoModel:keys", mpos, fmt.Sprintf("%d entries, each keyed once by its own element id, each with a known type name", n), fmt.Sprintf("only %d constant entries found in the built-in table", n))
 	}
 }
